@@ -49,6 +49,7 @@ pub fn blocks(thorough: bool) -> Vec<Block> {
         b.push(Block::new(u_long_rep(30), thr(&[0, X], &[(1, 1), (1, 2), (2, 1)]), "r x {{}, x} x {(1,1),(1,2),(2,1)}"));
         b.push(Block::new(u_count_gaps(), thr(&[0], &[(1, 1), (2, 1), (3, 1)]), "r x {(1,1),(2,1),(3,1)}"));
         b.push(Block::new(u_long_runs(40), thr(&[0, D, X], &[(1, 1), (1, 2), (3, 1)]), "r x {{}, d, x} x {(1,1),(1,2),(3,1)}"));
+        b.push(Block::new(u_long_runs(100), thr(&[0], &[(1, 1)]), "r (every run length up to 100, not only those near powers of two)"));
         b.push(Block::new(u_many(30), thr(&[0, D], &[(1, 1)]), "r x {{}, d}"));
         b.push(Block::new(u_nested_rep(), thr(&[0, X], &[(1, 1)]), "r x {{}, x}"));
         b.push(Block::new(u_long_units(), thr(&[0], &[(1, 1), (2, 1)]), "r x {(1,1),(2,1)}"));
